@@ -364,6 +364,14 @@ static void spaceObserverReroot(vf::Runner& R, int nmax) {
     if (O.getRoot() != ot.N[r] || !O.isValid() || !O.isRooted()) c.fail("rootAt|new-root-not-unique-fatherless-node", ctx + ": observer root/validity");
     RefTree Rf(n, before, r);
     const TreeGlobalGraph& G = *O.getGraph();
+    { // the graph-level clauses once more (the wrappers below walk the edge table)
+      GView g = viewOf(G); bool okG = g.root == (unsigned)r && refIsTree(g);
+      for (auto x : g.nodes) if (g.in[x].size() != (x == (unsigned)r ? 0u : 1u)) okG = false;
+      bool okE = unoriented(edgesOf(G)) == unoriented(before);
+      for (auto& e : edgesOf(G)) { try { if ((int)G.getEdge((unsigned)e[1], (unsigned)e[2]) != e[0]) okE = false; } catch (bpp::Exception&) { okE = false; } }
+      if (!okG) { c.fail("rootAt|new-root-not-unique-fatherless-node", ctx + "; now " + g.str()); return; }
+      if (!okE) { c.fail("rootAt|edge-ids-or-end-points-changed", ctx + "; before " + edgesStr(before) + " after " + edgesStr(edgesOf(G))); return; }
+    }
     // attached objects seen from the re-rooted tree, and wrappers against the id-level queries
     for (int x = 0; x < n; ++x) {
       std::string cx = ctx + " node " + str(x);
